@@ -858,7 +858,11 @@ impl<'c> Exec<'c> {
                     Err(e) => result = Err(e),
                 }
             }
-            if result.is_ok() {
+            // the context is only materialised when an oracle of this case needs it
+            let needs_ctx = (self.case.checks.learned || self.case.checks.expl) && seg.iter().any(|e| !matches!(e, Event::Decision { .. }));
+            if result.is_ok() && !needs_ctx {
+                result = self.process_events(seg, &[]);
+            } else if result.is_ok() {
                 // the events of segment j ran with solutions 0..j-1 blocked: `pending_block`
                 // (solution j-1) is blocked as well from the solver's point of view
                 let ctx: Vec<Vec<i32>> = match &pending_block {
